@@ -62,10 +62,32 @@ static void key_destroy(void *k) {
         n_call_dk++;
     }
 }
+/* "key inside the value" (RESET ... <null_mode> 1): the layout linked_hash_table.c mentions itself - the key is a field of
+ * the value record, there is no key destructor, and the value destructor gives the whole record back.  Here: from the
+ * moment a value's destructor has run until the API call returns, the key object that was put with it reads as garbage
+ * (restored afterwards, the scripts reuse key objects), so a library that still hashes or compares it sees a dead key. */
+static int kin_mode;
+static struct key_obj *val_key[MAXV + 1];
+static struct key_obj *scrubbed[MAXCALL];
+static int scrubbed_cls[MAXCALL];
+static size_t n_scrubbed;
+static void unscrub(void) {
+    while (n_scrubbed) {
+        --n_scrubbed;
+        scrubbed[n_scrubbed]->cls = scrubbed_cls[n_scrubbed];
+    }
+}
 static void val_destroy(void *v) {
     struct val_obj *o = v;
     if (o) {
         o->destroyed++;
+        if (kin_mode && o->id >= 1 && o->id <= MAXV && val_key[o->id] && n_scrubbed < MAXCALL) {
+            scrubbed[n_scrubbed] = val_key[o->id];
+            scrubbed_cls[n_scrubbed] = val_key[o->id]->cls;
+            n_scrubbed++;
+            val_key[o->id]->cls = 1000003 + 17 * (int)n_scrubbed;
+            val_key[o->id] = NULL;
+        }
     }
     nvd_total++;
     if (n_call_dv < MAXCALL) {
@@ -97,6 +119,7 @@ static void destructor_calls(void) {
     vh_arr_end();
     vh_ints("dvs", call_dv, n_call_dv);
     n_call_dk = n_call_dv = 0;
+    unscrub();
 }
 static void counters(void) {
     long long kd[NC * NP];
@@ -168,6 +191,9 @@ int main(int argc, char **argv) {
             int dk = (int)vh_argi(3), dv = (int)vh_argi(4);
             hash_mode = (int)vh_argi(5);
             null_mode = vh_ntok > 6 ? (int)vh_argi(6) : 0;
+            kin_mode = vh_ntok > 7 && vh_argi(7) && !dk && dv;
+            unscrub();
+            memset(val_key, 0, sizeof(val_key));
             for (int c = 1; c <= NC; ++c) {
                 for (int p = 1; p <= NP; ++p) {
                     free(keys[c][p]);
@@ -237,6 +263,9 @@ int main(int argc, char **argv) {
         void *out = NULL;
         if (vh_is("PUT")) {
             int c = (int)vh_argi(1), p = (int)vh_argi(2), v = (int)vh_argi(3);
+            if (kin_mode && KEY(c, p)) {
+                val_key[v] = keys[c][p];
+            }
             int rc = kind == 1 ? aws_linked_hash_table_put(&table, KEY(c, p), vals[v]) : aws_cache_put(cache, KEY(c, p), vals[v]);
             vh_begin("Put");
             kv_args(c, p);
